@@ -197,7 +197,7 @@ def _lift_to_callers(ctx, abs_, ex, fn: FuncInfo, owner_param: str, itf_expr: as
         return None
     verdicts = []
     for caller, node in sites:
-        bind = ctx.prog.bind_call(caller.module, node)
+        bind = ctx.prog.bind_call(caller.module, node, fn)
         owner2 = bind.get(owner_param)
         if owner2 is None:
             return None
@@ -292,7 +292,7 @@ def _same_interface(ctx, abs_, ex, fn: FuncInfo, call: ast.Call, owner: ast.expr
         if isinstance(e, ast.Call):
             fname = e.func.id if isinstance(e.func, ast.Name) else None
             # element-preserving wrappers: the elements come from the first argument / the receiver
-            if fname in ('list', 'tuple', 'sorted', 'reversed', 'iter', 'groupby') and e.args:
+            if fname in ('list', 'tuple', 'sorted', 'reversed', 'iter', 'groupby', 'next') and e.args:
                 e = e.args[0]
                 continue
             if fname == 'filter' and len(e.args) == 2:
@@ -304,6 +304,9 @@ def _same_interface(ctx, abs_, ex, fn: FuncInfo, call: ast.Call, owner: ast.expr
             callee = prog.resolve_expr_symbol(cur_fn.module, e.func) if isinstance(e.func, (ast.Name, ast.Attribute)) else None
             if isinstance(callee, FuncInfo) and cur_fn is fn:
                 rets = [r for r in iter_own_nodes(callee.node) if isinstance(r, ast.Return) and r.value is not None]
+                ys = [y for y in iter_own_nodes(callee.node) if isinstance(y, ast.Yield) and y.value is not None]
+                if not rets and len(ys) == 1:
+                    rets = ys           # a generator: its elements are what it yields
                 if len(rets) != 1:
                     return None
                 params = [a.arg for a in callee.params()]
